@@ -3,6 +3,7 @@ import Driver.Framing
 import Driver.Mux
 import Driver.Store
 import Driver.Codec
+import Driver.Compress
 open Lean Drv
 
 def dispatch (cmd : String) (j : Json) : Except String Json :=
@@ -20,6 +21,7 @@ def dispatch (cmd : String) (j : Json) : Except String Json :=
   | "store" => cmdStore j
   | "encode" => cmdEncode j
   | "decode" => cmdDecode j
+  | "z_wrap" => cmdZWrap j
   | _ => throw "bad-case"
 
 def handleLine (line : String) : String :=
